@@ -44,6 +44,9 @@ CLAIMS = {
  "C15": ("fault_enumeration", "exhaustive enumeration of fault indices (error and panic at every backend call) over base sequences, judged by the session model, fid probes, a second connection and the lifecycle monitor",
          "For each base sequence the fault-free run counts backend calls c; the sequence is re-run with the fault at every index 1..c as an error (12 error shapes rotating) and as a panic. Faulted request -> Rlerror(errno) / EFAULT; after an error the model keeps judging every reply and the fid table is probed after every step (request had no effect; clunk/remove still unbind); a second connection is served after every step; afterwards walks over the same paths from another connection must be answered (lock leaks -> decided by quiescence); when the connections end every handle must have been closed exactly once, never used after Close.",
          "Faults are applied before the backend mutates anything; after a panic only liveness is demanded; teardown-time faults are not injected.", "DESIGN.md section 3 C15"),
+ "C05": ("exploration", "lifecycle monitor in an instrumented backend (Close count, use after Close, Close during a call) + Handle-return / goroutine-leak / path-tree-reference checks, over cut points, in-flight disconnects, clunk races and cross-connection teardown races with gates",
+         "PRNG sessions ended by disconnect with fids bound; scripted sessions replayed truncated at every frame boundary +-1 and every 7th byte (thorough: every byte) followed by EOF; 1-8 requests parked in the backend when the connection is cut, released in every order (handler exits must precede teardown Close and Handle's return on the logical clock); clunk/remove/fid-replacement racing a parked operation on the same fid; a connection ending while another is parked in RenameAt/Renamed/UnlinkAt for entries it holds; a rename notifying files while a dying connection is parked inside their Close. After all connections ended: every handle closed exactly once, nothing called after Close began, no Close during a call, Handle returned (quiescence decides), no p9 goroutine left, zero references left in the server's path tree.",
+         "Backend errors at every call index are covered by C15's lifecycle accounting; schedules not forced by gates are sampled.", "DESIGN.md section 3 C05"),
 }
 
 PENDING = "check under construction in this round (DESIGN.md section 3); will be claimed once its monitor is committed and silent on the repaired tree"
